@@ -3,7 +3,7 @@
    agree with the file the analysis loaded (features_agree). *)
 From Coq Require Import List Arith PeanoNat NArith ZArith Bool Lia.
 From LH Require Import Base.Bytes Model.FileIndex Model.ModulePath Spec.ModuleSpec
-  Proofs.FileIndexProofs Proofs.ModulePathStr.
+  Proofs.FileIndexProofs Proofs.ModulePathStr Proofs.MergeDet.
 Import ListNotations.
 
 (* ---- well-formed association lists: no duplicate keys (what a Go map is) ---- *)
@@ -223,6 +223,33 @@ Proof.
       rewrite He in Hg. destruct Hg.
 Qed.
 
+(* the same for either variant of the choice: fx = false the set of best-scored candidates, fx = true the repaired
+   singleton (fixes/C09-deterministic-order.diff) *)
+Lemma best_set_fx_incl fx cur r st c : In c (best_set_fx fx cur r st) -> In c (best_set cur r st).
+Proof.
+  destruct fx; cbn [best_set_fx]; [|intros H; exact H].
+  destruct (best_match true cur r (bm_candidates r st)) as [m|] eqn:E; [|intros []].
+  intros [<-|[]]. apply (best_match_fixed_argmax _ _ _ _ E).
+Qed.
+
+Lemma best_set_fx_nil fx cur r st : best_set_fx fx cur r st = [] <-> best_set cur r st = [].
+Proof.
+  destruct fx; cbn [best_set_fx]; [|tauto].
+  destruct (best_match true cur r (bm_candidates r st)) as [m|] eqn:E.
+  - split; [discriminate|]. intros Hn. apply best_match_fixed_argmax in E. unfold best_set in Hn. rewrite Hn in E. destruct E.
+  - apply best_match_fixed_none in E. unfold best_set. rewrite E. split; reflexivity.
+Qed.
+
+Lemma best_set_fx_sub fx st files cur r (P : list N -> bool) :
+  (forall c, In c (bm_candidates r st) <-> In c files /\ P c = true) ->
+  (forall c, In c (best_set_fx fx cur r st) -> In c (filter P files)) /\
+  (best_set_fx fx cur r st = [] <-> filter P files = []).
+Proof.
+  intros H. destruct (best_set_sub st files cur r P H) as [Hs Hn]. split.
+  - intros c Hc. apply Hs. apply (best_set_fx_incl fx). exact Hc.
+  - rewrite best_set_fx_nil. exact Hn.
+Qed.
+
 (* ---- conformance of CheckReferFile ---- *)
 Lemma subset_bytes_spec a b : (forall x, In x a -> In x b) -> subset_bytes a b = true.
 Proof.
@@ -261,10 +288,10 @@ Section Conform.
     destruct (mem_bytes (remove_pre_str refer) (ignore_refer cfg)); [apply conforms_refl|].
     destruct (disk (complete_path (main_dir cfg) (remove_pre_str refer))); [apply conforms_refl|].
     destruct (exact_mode cfg); [apply conforms_refl|].
-    destruct (best_set_sub st files cur (remove_pre_str refer) (path_suffix (remove_pre_str refer))
+    destruct (best_set_fx_sub (order_fixed cfg) st files cur (remove_pre_str refer) (path_suffix (remove_pre_str refer))
                 (fun c => cands_name st files _ c Hok Hd)) as [Hsub Hnil].
     unfold lit_candidates.
-    destruct (best_set cur (remove_pre_str refer) st) as [|b bs] eqn:Eb.
+    destruct (best_set_fx (order_fixed cfg) cur (remove_pre_str refer) st) as [|b bs] eqn:Eb.
     - rewrite (proj1 Hnil eq_refl). apply conforms_refl.
     - destruct (filter (path_suffix (remove_pre_str refer)) files) as [|g gs] eqn:Ef.
       + destruct Hnil as [_ Hnil]. specialize (Hnil eq_refl). discriminate.
@@ -287,8 +314,8 @@ Section Conform.
          else if disk (complete_path (main_dir cfg) (replace_byte dot slash s ++ init_tail))
          then found [complete_path (main_dir cfg) (replace_byte dot slash s ++ init_tail)]
          else not_found
-       else match best_set cur (replace_byte dot slash s) st with
-            | [] => match best_set cur (replace_byte dot slash s ++ init_tail) st with
+       else match best_set_fx (order_fixed cfg) cur (replace_byte dot slash s) st with
+            | [] => match best_set_fx (order_fixed cfg) cur (replace_byte dot slash s ++ init_tail) st with
                     | [] => not_found | l => found l end
             | l => found l end)
       (if (match k with KRequire => true | _ => false end) && mem_bytes s (ignore_modules cfg) then skipped else
@@ -304,14 +331,14 @@ Section Conform.
       destruct (exact_mode cfg); [apply conforms_refl|].
       set (mp := replace_byte dot slash s).
       assert (has_dot mp = false) as Hnd by (apply has_dot_false; apply replace_no_dot).
-      destruct (best_set_sub st files cur mp (path_suffix (mp ++ lua_ext))
+      destruct (best_set_fx_sub (order_fixed cfg) st files cur mp (path_suffix (mp ++ lua_ext))
                   (fun c => cands_pre st files _ c Hok Hsimple Hnd)) as [Hsub1 Hnil1].
-      destruct (best_set_sub st files cur (mp ++ init_tail) (path_suffix (mp ++ init_tail))
+      destruct (best_set_fx_sub (order_fixed cfg) st files cur (mp ++ init_tail) (path_suffix (mp ++ init_tail))
                   (fun c => cands_name st files _ c Hok (has_dot_init mp))) as [Hsub2 Hnil2].
       unfold doc_candidates, doc_lua, doc_init, mod_path. fold mp.
-      destruct (best_set cur mp st) as [|b bs] eqn:Eb.
+      destruct (best_set_fx (order_fixed cfg) cur mp st) as [|b bs] eqn:Eb.
       - rewrite (proj1 Hnil1 eq_refl).
-        destruct (best_set cur (mp ++ init_tail) st) as [|b2 bs2] eqn:Eb2.
+        destruct (best_set_fx (order_fixed cfg) cur (mp ++ init_tail) st) as [|b2 bs2] eqn:Eb2.
         + rewrite (proj1 Hnil2 eq_refl). apply conforms_refl.
         + destruct (filter (path_suffix (mp ++ init_tail)) files) as [|g gs] eqn:Ef.
           * destruct Hnil2 as [_ Hn]. specialize (Hn eq_refl). discriminate.
@@ -445,6 +472,22 @@ Proof.
   - right. exists c. rewrite He, argmax_single. split; [reflexivity|]. apply H. rewrite He. left. reflexivity.
 Qed.
 
+Lemma best_set_fx_unique fx st files cur r (P : list N -> bool) :
+  wf_idx st ->
+  (forall c, In c (bm_candidates r st) <-> In c files /\ P c = true) ->
+  (forall c1 c2, In c1 files -> In c2 files -> P c1 = true -> P c2 = true -> c1 = c2) ->
+  (best_set_fx fx cur r st = [] /\ forall c, In c files -> P c = false) \/
+  (exists c, best_set_fx fx cur r st = [c] /\ In c files /\ P c = true).
+Proof.
+  intros Hwf H Hu. destruct (best_set_unique st files cur r P Hwf H Hu) as [[He Hn]|[c [He [Hc Hp]]]].
+  - left. split; [apply best_set_fx_nil; exact He|exact Hn].
+  - right. exists c. split; [|split; assumption].
+    destruct fx; cbn [best_set_fx]; [|exact He].
+    destruct (best_match true cur r (bm_candidates r st)) as [m|] eqn:E.
+    + apply best_match_fixed_argmax in E. unfold best_set in He. rewrite He in E. destruct E as [<-|[]]. reflexivity.
+    + apply best_match_fixed_none in E. unfold best_set in He. rewrite E in He. discriminate.
+Qed.
+
 Lemma so_not_simple x b : ~ In dot b -> is_suffix (x ++ so_ext) (b ++ lua_ext) = false.
 Proof.
   intros _. destruct (is_suffix (x ++ so_ext) (b ++ lua_ext)) eqn:E; [|reflexivity].
@@ -475,7 +518,7 @@ Theorem features_agree disk cfg st files cur m :
   disk (complete_path (main_dir cfg) (doc_so m)) = false ->
   unique_match (doc_lua m) files -> unique_match (doc_init m) files ->
   let out := check_refer disk cfg st cur KRequire m in
-  let oo := open_outcomes st (fun f => fmem f files) cur (open_list true false m) in
+  let oo := open_outcomes cfg st (fun f => fmem f files) cur (open_list true false m) in
   (r_resolved out = [] /\ oo = [None]) \/
   (exists it c, r_resolved out = [c] /\ oo = [Some (it, c)] /\ path_suffix it c = true /\
                 (it = doc_lua m \/ it = doc_init m)).
@@ -491,16 +534,16 @@ Proof.
   pose proof (conj Hwf His : index_ok st files) as Hok.
   assert (has_dot (mp ++ lua_ext) = true) as Hdl by (apply has_dot_In; apply in_or_app; right; left; reflexivity).
   (* analysis, first lookup (pre map) and definition, first item (name map): same candidates *)
-  destruct (best_set_unique st files cur mp (path_suffix (mp ++ lua_ext)) Hwf
+  destruct (best_set_fx_unique (order_fixed cfg) st files cur mp (path_suffix (mp ++ lua_ext)) Hwf
               (fun c => cands_pre st files _ c Hok Hsimple Hnd) Hu1) as [[Ea Hna]|[ca [Ea [Hca Hpa]]]];
-  destruct (best_set_unique st files cur (mp ++ lua_ext) (path_suffix (mp ++ lua_ext)) Hwf
+  destruct (best_set_fx_unique (order_fixed cfg) st files cur (mp ++ lua_ext) (path_suffix (mp ++ lua_ext)) Hwf
               (fun c => cands_name st files _ c Hok Hdl) Hu1)
     as [[Ed Hnd1]|[cd [Ed [Hcd Hpd]]]].
   - (* no name.lua anywhere: both go on to init.lua; the .so item finds nothing among simple names *)
     simpl open_outcomes. rewrite Ed. simpl.
-    assert (best_set cur (mp ++ so_ext) st = []) as Es.
+    assert (best_set_fx (order_fixed cfg) cur (mp ++ so_ext) st = []) as Es.
     { assert (has_dot (mp ++ so_ext) = true) as Hd by (apply has_dot_In; apply in_or_app; right; left; reflexivity).
-      destruct (best_set_sub st files cur (mp ++ so_ext) (path_suffix (mp ++ so_ext))
+      destruct (best_set_fx_sub (order_fixed cfg) st files cur (mp ++ so_ext) (path_suffix (mp ++ so_ext))
                   (fun c => cands_name st files _ c Hok Hd)) as [_ Hnil].
       apply Hnil. destruct (filter (path_suffix (mp ++ so_ext)) files) as [|g l] eqn:Ef; [reflexivity|].
       assert (In g (filter (path_suffix (mp ++ so_ext)) files)) as Hg by (rewrite Ef; left; reflexivity).
@@ -508,7 +551,7 @@ Proof.
       unfold path_suffix in Hp. change (slash :: mp ++ so_ext) with ((slash :: mp) ++ so_ext) in Hp.
       rewrite (so_not_simple (slash :: mp) b Hb) in Hp. discriminate. }
     rewrite Es. simpl. rewrite Ea.
-    destruct (best_set_unique st files cur (mp ++ init_tail) (path_suffix (mp ++ init_tail)) Hwf
+    destruct (best_set_fx_unique (order_fixed cfg) st files cur (mp ++ init_tail) (path_suffix (mp ++ init_tail)) Hwf
                 (fun c => cands_name st files _ c Hok (has_dot_init mp)) Hu2) as [[Ei Hni]|[ci [Ei [Hci Hpi]]]].
     + rewrite Ei. simpl. left. split; reflexivity.
     + rewrite Ei. simpl. apply fmem_In in Hci as Hci'. rewrite Hci'. simpl. right.
